@@ -704,8 +704,13 @@ def dead_arm_names(ast):
     condition is a constant expression - the signature of the listed finding dead_arm_operand."""
     out = set()
     for n in subterms(ast):
+        arms = ()
         if isinstance(n, tuple) and n and n[0] == 'cond' and is_constant_expr(n[1]):
-            for arm in n[2:4]:
+            arms = n[2:4]
+        elif isinstance(n, tuple) and n and n[0] == 'call' and n[1] == 'sizeof':
+            arms = n[2:]  # the operand of sizeof is not evaluated either
+        if arms:
+            for arm in arms:
                 for x in subterms(arm):
                     if not isinstance(x, tuple) or not x:
                         continue
